@@ -5,11 +5,16 @@ package c19
 import (
 	"fmt"
 	"math/big"
+	"math/rand/v2"
+	"os"
+	"path/filepath"
+	"strconv"
+	"strings"
+	"testing"
 	"time"
 
 	"github.com/consensys/gnark/frontend"
 
-	"github.com/consensys/gnark/verifharness/internal/adversary"
 	"github.com/consensys/gnark/verifharness/internal/vcore"
 )
 
@@ -85,7 +90,52 @@ func largeTopo(pattern string, n int, exportInputs bool) *topo {
 	return t
 }
 
+// randomLargeTopo: a few to a few hundred random dependencies on both input
+// wires, biased towards the instances around multiples of 1024; optionally a
+// second gate with fan-out (u = z + x).  Acyclic by a random priority order.
+func randomLargeTopo(rng *rand.Rand, name string, n int) *topo {
+	in := wireSpec{Op: "in"}
+	t := &topo{Name: name, N: n, Hash: "mimc", Chal: "commit", DepPattern: "random-large", ExportInputs: rng.IntN(2) == 0,
+		Wires: []wireSpec{in, in, {Op: "mul", In: []int{0, 1}}}}
+	out := 2
+	if rng.IntN(3) == 0 {
+		t.Wires = append(t.Wires, wireSpec{Op: "add", In: []int{2, 0}})
+		out = 3
+	}
+	rank := rng.Perm(n)
+	if rng.IntN(2) == 0 { // mostly forward dependencies
+		for i := range rank {
+			rank[i] = i
+		}
+	}
+	pick := func() int {
+		if rng.IntN(3) == 0 {
+			b := 1024 * (1 + rng.IntN(n/1024))
+			return (b - 2 + rng.IntN(5)) % n
+		}
+		return rng.IntN(n)
+	}
+	m := []int{2, 5, 12, 40, 300}[rng.IntN(5)]
+	seen := map[[2]int]bool{}
+	for len(t.Deps) < m {
+		a, b, w := pick(), pick(), rng.IntN(2)
+		if a == b {
+			continue
+		}
+		if rank[a] < rank[b] {
+			a, b = b, a
+		}
+		if seen[[2]int{w, a}] {
+			continue
+		}
+		seen[[2]int{w, a}] = true
+		t.Deps = append(t.Deps, depSpec{InWire: w, OutWire: out, InInst: a, OutInst: b})
+	}
+	return t
+}
+
 type largeJob struct {
+	random  int // > 0: the i-th random large topology
 	pattern string
 	n       int
 	k       *curveKit
@@ -95,39 +145,147 @@ type largeJob struct {
 
 func largeJobs(r *vcore.Run) []largeJob {
 	var jobs []largeJob
-	if r.Quick() {
-		for pi, p := range largePatterns {
-			// 2048 on both curves; 4096 on alternating curves
-			jobs = append(jobs, largeJob{p, 2048, &kits[0], "r1cs", p == "sparse-mixed"}, largeJob{p, 2048, &kits[1], "r1cs", false})
-			jobs = append(jobs, largeJob{p, 4096, &kits[pi%2], "r1cs", false})
-		}
-		return jobs
-	}
 	for pi, p := range largePatterns {
 		for ki := range kits {
-			jobs = append(jobs, largeJob{p, 2048, &kits[ki], "r1cs", p == "sparse-mixed" || p == "tree"}, largeJob{p, 4096, &kits[ki], "r1cs", false})
-			jobs = append(jobs, largeJob{p, 2048, &kits[ki], "scs", false})
+			for _, b := range builders {
+				jobs = append(jobs, largeJob{pattern: p, n: 2048, k: &kits[ki], b: b, adv: p == "sparse-mixed" && b == "r1cs"},
+					largeJob{pattern: p, n: 4096, k: &kits[ki], b: b, adv: r.Thorough() && p == "tree" && b == "r1cs"})
+				if r.Thorough() {
+					jobs = append(jobs, largeJob{pattern: p, n: 8192, k: &kits[ki], b: b})
+				}
+			}
 		}
-		jobs = append(jobs, largeJob{p, 8192, &kits[pi%2], "r1cs", false}, largeJob{p, 4096, &kits[(pi+1)%2], "scs", false})
+		if r.Quick() {
+			jobs = append(jobs, largeJob{pattern: p, n: 8192, k: &kits[pi%2], b: "r1cs"})
+		} else {
+			jobs = append(jobs, largeJob{pattern: p, n: 16384, k: &kits[pi%2], b: builders[pi%2]})
+		}
+	}
+	sizes := []int{2048, 4096, 2048, 8192}
+	for i := 1; i <= r.Pick(12, 80); i++ {
+		jobs = append(jobs, largeJob{random: i, pattern: "random-large", n: sizes[i%len(sizes)], k: &kits[i%2], b: builders[(i/2)%2]})
 	}
 	return jobs
 }
 
+func (j largeJob) batch() string {
+	if j.random > 0 {
+		return fmt.Sprintf("random-%d", j.random%2)
+	}
+	return fmt.Sprintf("n%d-%s", j.n, j.k.name)
+}
+
+func (j largeJob) String() string {
+	return fmt.Sprintf("pattern=%s random=%d instances=%d curve=%s builder=%s", j.pattern, j.random, j.n, j.k.name, j.b)
+}
+
+// runLarge runs the large batches in child processes, one per (size, curve):
+// the native solving hint works in gnark-crypto's worker-pool goroutines, where a
+// panic (e.g. an index error of a mis-positioned dependency cursor) cannot be
+// recovered and kills the process.  A dead child is a violation, with the case
+// it was running.  The children write their replay files below
+// replay/C19/large-batch/ (own root, so that file names do not collide).
 func runLarge(r *vcore.Run) {
-	jobs := largeJobs(r)
-	vcore.Parallel(len(jobs), workers, func(i int) { largeCase(r, jobs[i]) })
+	var batches []string
+	seen := map[string]bool{}
+	for _, j := range largeJobs(r) {
+		if b := j.batch(); !seen[b] {
+			seen[b] = true
+			batches = append(batches, b)
+		}
+	}
+	childRoot := filepath.Join(vcore.Root(), "replay", "C19", "large-batch")
+	_ = os.MkdirAll(childRoot, 0o755)
+	if kf, err := os.ReadFile(filepath.Join(vcore.Root(), "known_findings.json")); err == nil {
+		_ = os.WriteFile(filepath.Join(childRoot, "known_findings.json"), kf, 0o644)
+	}
+	vcore.Parallel(len(batches), 4, func(i int) {
+		b := batches[i]
+		// a crash loses the rest of the batch: resume after the crashed case (a few times)
+		skip := 0
+		for attempt := 0; attempt < 5; attempt++ {
+			res := r.RunChild("TestC19LargeChild", fmt.Sprintf("large-%s-%d", b, attempt),
+				[]string{"C19_LARGE_BATCH=" + b, fmt.Sprintf("C19_LARGE_SKIP=%d", skip), "VERIF_ROOT=" + childRoot}, time.Duration(r.Pick(20, 60))*time.Minute)
+			if res.OK {
+				r.Count("large.children-completed", 1)
+				return
+			}
+			if res.TimedOut {
+				r.Inconclusive("large-batch child watchdog: " + b)
+				return
+			}
+			r.Count("large.children-CRASHED", 1)
+			r.Eval(fmt.Sprintf("large-crash|%s|%d", b, attempt), true)
+			r.Violation("large-batch/solver-crashes-the-process", "child process died; "+crashLine(res.Output)+"; running: "+firstLine(res.LastCase),
+				map[string]any{"batch": b, "last_case": res.LastCase, "output": res.Output, "log": res.LogPath})
+			var idx int
+			if _, err := fmt.Sscanf(res.LastCase, "#%d ", &idx); err != nil {
+				return
+			}
+			skip = idx + 1
+		}
+	})
+}
+
+func firstLine(s string) string {
+	if i := strings.IndexByte(s, '\n'); i >= 0 {
+		return s[:i]
+	}
+	return s
+}
+
+func crashLine(out string) string {
+	for _, l := range strings.Split(out, "\n") {
+		if strings.HasPrefix(l, "panic:") || strings.HasPrefix(l, "fatal error:") {
+			return l
+		}
+	}
+	return "no panic line in the output"
+}
+
+// TestC19LargeChild runs one batch of large cases sequentially (child process of TestC19).
+func TestC19LargeChild(t *testing.T) {
+	if !vcore.IsChild() {
+		t.Skip("parent mode")
+	}
+	r := vcore.Start(t, "C19")
+	if err := registerAll(); err != nil {
+		t.Fatal(err)
+	}
+	batch := os.Getenv("C19_LARGE_BATCH")
+	skip, _ := strconv.Atoi(os.Getenv("C19_LARGE_SKIP"))
+	idx := 0
+	for _, j := range largeJobs(r) {
+		if j.batch() != batch {
+			continue
+		}
+		if idx >= skip {
+			vcore.ChildCaseStart(fmt.Sprintf("#%d %s", idx, j.String()), nil)
+			largeCase(r, j)
+		}
+		idx++
+	}
+	r.ExportPartial()
 }
 
 func largeCase(r *vcore.Run, j largeJob) {
 	t0 := time.Now()
 	k, b := j.k, j.b
-	t := largeTopo(j.pattern, j.n, len(j.pattern)%2 == 0)
+	var t *topo
+	if j.random > 0 {
+		t = randomLargeTopo(r.Rand(fmt.Sprintf("large-topo/%d", j.random)), fmt.Sprintf("large/random-%d/%d", j.random, j.n), j.n)
+	} else {
+		t = largeTopo(j.pattern, j.n, len(j.pattern)%2 == 0)
+	}
 	key := fmt.Sprintf("%s/%s/%s", t.Name, k.name, b)
 	label := "vals/" + key
 	rep := func(extra map[string]any) map[string]any {
 		// the inputs are regenerated from (VERIF_SEED, label): 2*N field elements are not written out
-		m := map[string]any{"large_pattern": j.pattern, "instances": j.n, "export_inputs": t.ExportInputs, "curve": k.name, "builder": b,
+		m := map[string]any{"large_pattern": j.pattern, "large_random_index": j.random, "instances": j.n, "export_inputs": t.ExportInputs, "curve": k.name, "builder": b,
 			"values_rng_label": label, "values_mode": "random", "topology_text": t.String()}
+		if j.random > 0 {
+			m["topology"] = t // a few hundred dependencies at most
+		}
 		for a, v := range extra {
 			m[a] = v
 		}
@@ -236,5 +394,4 @@ func largeAdv(r *vcore.Run, t *topo, k *curveKit, b, key string, vals []*big.Int
 			r.Count("large.adv.deviations-run", 1)
 		}
 	}
-	_ = adversary.FixedMask
 }
